@@ -1,7 +1,7 @@
 (* C15 — evaluation of harness cases: model = implementation (code 1) and the boolean form of the property
    applied to what the implementation did (codes >= 10). *)
-From Coq Require Import String List ZArith Bool NArith.
-From V Require Import Model.C15_Config Model.C15_Valid Gen.ConfigSchemas.
+From Coq Require Import String Ascii List ZArith Bool NArith.
+From V Require Import Model.C15_Config Model.C15_Valid Model.C15_Manager Gen.ConfigSchemas.
 Import ListNotations.
 Open Scope string_scope.
 
@@ -91,13 +91,101 @@ Definition check_case (c : case) : list (N * N * N) :=
 
 Definition failing (cs : list case) : list (N * N * N) := flat_map check_case cs.
 
-(* the Manager with all sections registered: per section (present in the file, loads on its own [defaults when absent,
-   then the environment]); observed: the Manager accepted, every section's saved form equals the one it saves on its own
-   (in memory, in the written file, and after loading the written file again), a secret occurs in the displayable form *)
-Definition mcase := (N * (list (bool * bool) * bool * bool * bool))%type.
+(* ------------------------------------------------------------------------------------------------
+   The Manager (Model/C15_Manager.v) with any subset of the components registered.
+   Input of a case: the mode (0 LoadJSON, 1 Default, 2 LoadJSONFromFile + SaveJSON); whether the bytes fit jsonConfig;
+   one entry per section key that is registered or stands in the file: (key, registered, status in the file:
+   0 absent / 1 null / 2 object / 3 not an object, outcome of the real component on that section on its own
+   [defaults when absent or null; the cluster component stays as it was; then the environment]).
+   Keys: 0 = the cluster section; 1..13 the other real components; 100.. component names nobody knows inside a section
+   type the Manager knows; 200.. members of unknown top-level names.
+   Observed: the Manager accepted; Manager.Validate() of the accepted configuration; the saved file, per key: (present, null, equal to what the component saves on its
+   own, equal to the raw input); the saved file loads again (same registered set) into components that save the same;
+   the displayable form: per key in it, for every member named like a secret at any depth: does it show the marker;
+   the planted secrets found in the bytes of the displayable form. *)
+Definition mentry := (N * bool * N * bool)%type.
+Definition msaved := (N * (bool * bool * bool * bool))%type.
+Definition mdisp := (N * list bool)%type.
+Definition mcase := (N * (N * bool * list mentry * bool * bool * list msaved * bool * option (list mdisp) * list N))%type.
+
+Definition kname (n : N) : string := String (Ascii.ascii_of_N n) EmptyString.
+Definition kk (n : N) : skey :=
+  if N.eqb n 0 then cluster_key else if N.ltb n 200 then ("api", kname n) else ("zz", kname n).
+
+(* a component of which only the outcome on its own is known *)
+Definition own_doc : json := [("=own", VB true)].
+Definition abs_cif (ok : bool) : cif :=
+  mkCif (fun _ => if ok then Some [] else None) [] (fun _ => ok) (fun _ => own_doc) (fun _ => []).
+Definition e_key (e : mentry) : N := let '(k, _, _, _) := e in k.
+Definition e_reg (e : mentry) : bool := let '(_, r, _, _) := e in r.
+Definition e_status (e : mentry) : N := let '(_, _, s, _) := e in s.
+Definition e_ok (e : mentry) : bool := let '(_, _, _, o) := e in o.
+Definition mreg (es : list mentry) : list comp := map (fun e => mkComp (kk (e_key e)) (abs_cif (e_ok e))) (filter e_reg es).
+Definition in_doc (k : N) : json := [("=in", VZ (Z.of_N k))].
+Definition mfile (es : list mentry) : file :=
+  flat_map (fun e => match e_status e with
+                     | 0%N => []
+                     | 1%N => [(kk (e_key e), SNull)]
+                     | 3%N => [(kk (e_key e), SJunk)]
+                     | _ => [(kk (e_key e), SDoc (in_doc (e_key e)))] end) es.
+
+Definition find_saved (k : N) (l : list msaved) : bool * bool * bool * bool :=
+  match find (fun x => N.eqb (fst x) k) l with Some (_, o) => o | None => (false, false, false, false) end.
+Definition is_own (j : json) : bool := match j with [(n, _)] => String.eqb n "=own" | _ => false end.
+(* the model's saved file and the observed one agree at key k *)
+Definition saved_agree (f' : file) (obs : list msaved) (k : N) : bool :=
+  let '(present, null, eq_own, eq_in) := find_saved k obs in
+  match fget (kk k) f' with
+  | None => negb present
+  | Some SNull => present && null
+  | Some SJunk => present && eq_in
+  | Some (SDoc j) => present && (if is_own j then eq_own else eq_in) end.
+Definition memN (x : N) (l : list N) : bool := existsb (N.eqb x) l.
+Definition same_keys (a b : list N) : bool := forallb (fun x => memN x b) a && forallb (fun x => memN x a) b.
+
+Definition mmodel_eqb (c : mcase) : bool :=
+  let '(_, (mode, wf, es, ok, _, saved, _, disp, _)) := c in
+  let reg := mreg es in
+  let m0 := mkMgr (map (fun _ => []) reg) None in
+  let r := match mode with
+           | 1%N => let m := mgr_default reg m0 in if mgr_valid reg m then Some m else None
+           | _ => mgr_load reg m0 (if wf then Some (mfile es) else None) end in
+  (* the displayable form shows the registered components, whatever state they are in *)
+  (match disp with
+   | Some dl => same_keys (map e_key (filter e_reg es)) (map fst dl)
+   | None => true end)
+  && match r with
+     | None => negb ok
+     | Some m =>
+         ok && match mgr_save reg m with
+               | None => false
+               | Some f' => forallb (saved_agree f' saved) (map e_key es ++ map fst saved) end
+     end.
+
+(* the property on the implementation's own output *)
+Definition unreg_kept (saved : list msaved) (e : mentry) : bool :=
+  e_reg e || N.eqb (e_status e) 0 || negb (N.ltb (e_key e) 200) ||
+  (let '(present, null, _, eq_in) := find_saved (e_key e) saved in
+   present && (if N.eqb (e_status e) 1 then null else eq_in)).
+(* a section that stands in the file and that its registered component refuses on its own: the Manager must not accept *)
+Definition section_refused_ok (e : mentry) : bool :=
+  negb (e_reg e) || e_ok e || N.eqb (e_status e) 0 || N.eqb (e_status e) 1.
+(* the observed displayable form as a file of the model: a member named like a secret that does not show the marker is
+   rendered as such, so that the same boolean the theorem manager_display_hidesb is about is evaluated on it *)
+Definition disp_file (dl : list mdisp) : file :=
+  map (fun '(k, flags) => (kk k, SDoc (map (fun b : bool => ("secret", if b then hidden_marker else VS "=shown")) flags))) dl.
+
 Definition mcheck (c : mcase) : list (N * N * N) :=
-  let '(id, (secs, ok, saved_eq, leak)) := c in
-  ((if Bool.eqb ok (forallb snd secs) then [] else [(id, 1%N, 0%N)])
-   ++ (if ok && negb saved_eq then [(id, 11%N, 0%N)] else [])
-   ++ (if leak then [(id, 12%N, 0%N)] else []))%list.
+  let '(id, (mode, wf, es, ok, valid, saved, reload, disp, leaks)) := c in
+  ((if mmodel_eqb c then [] else [(id, 1%N, 0%N)])
+   ++ (if ok && negb valid then [(id, 10%N, 0%N)] else [])
+   ++ (if ok && negb (forallb section_refused_ok es) then [(id, 17%N, 0%N)] else [])
+   ++ (if ok && negb reload then [(id, 11%N, 0%N)] else [])
+   ++ (match saved with   (* [] = no saved file was produced (reported by 11) *)
+       | [] => []
+       | _ => if ok && negb (forallb (unreg_kept saved) es) then [(id, 15%N, 0%N)] else [] end)
+   ++ (match leaks with [] => [] | _ => [(id, 12%N, 0%N)] end)
+   ++ (match disp with
+       | Some dl => if display_hidesb (disp_file dl) then [] else [(id, 16%N, 0%N)]
+       | None => [] end))%list.
 Definition mfailing (cs : list mcase) : list (N * N * N) := flat_map mcheck cs.
